@@ -75,7 +75,7 @@ class Lexical(FunctionSpec):
 
 
 # ------------------------------------------------------------------ bounded differential stand-in
-TOK = ['b', 'PUSH', 'PEEK', 'POP', 'POPx', 'PUSH_LITERAL', 'PEEK_ALL', 'DROP', 'PUSHx', 'EOI', 'ANY', '"s"', '"\\n"', '"\\x4"', '"\\u{41}"', '"\\u{110000}"', '"\\q"', '""',
+TOK = ['"\\""', '"\\\\"', '"a\\"b"', "'\\\\'", 'b', 'PUSH', 'PEEK', 'POP', 'POPx', 'PUSH_LITERAL', 'PEEK_ALL', 'DROP', 'PUSHx', 'EOI', 'ANY', '"s"', '"\\n"', '"\\x4"', '"\\u{41}"', '"\\u{110000}"', '"\\q"', '""',
        "'a'", "'z'", "'\\n'", "'\\x41'", "'\\u{41}'", "'\\''", "'''", "'\\'", '..', '(', ')', '{', '}', '~', '|', '*', '?', '+', '!', '&', '#t', '#t2', '=', ',',
        '1', '-1', '-0', '0', '007', ' ', '[', ']', '^', '_', '//c\n', '/*c*/', '\n', '\r\n', '\r', '\t', '///d\n', '//!d\n', 'é', '"', "'", '\\', '.', '@', '$', '/', '99999999999']
 GRAM = ['a={b}', 'a = _{ b }', 'c=@{"x"}', '///d\n', '/// d', '///\td', '//!d\n', '//! d', ' ', '\n', '\r\n', '//c\n', '/*c*/', 'a', '=', '{', '}', '_', '@', '$', '!', 'b', 'PUSH',
@@ -90,7 +90,7 @@ def _random_expr(rnd: random.Random, depth: int) -> Any:
         if k == "str":
             return ("str", rnd.choice(["a", "", "x y", "\n", "\"", "\\", "é", "\x41", "'"]))
         if k == "istr":
-            return ("istr", rnd.choice(["a", "SELECT", ""]))
+            return ("istr", rnd.choice(["a", "SELECT", "", "\"", "\\", "x\"y", "'", "\n"]))
         if k == "range":
             a, b = sorted([rnd.choice("aAz09\n'\\é"), rnd.choice("aAz09\n'\\é")])
             return ("range", a, b)
@@ -435,7 +435,7 @@ def specs(tier):
     # what the token-layer proof assumes of scanner output, proved of the scanner's real state functions (ghost: kind of
     # the last emitted token): no CHOICE_OP directly after an infix/prefix operator, no TAG directly after a prefix
     # operator, a MODIFIER token's value comes from RE_MODIFIER
-    out += [c11.ScannerAdjacency(m) for m in c11.SCANNER_METHODS if m not in ("emit", "next", "peek", "scan", "scan_until", "skip", "error")]
+    out += [c11.ScannerAdjacency(m) for m in c11.SCANNER_METHODS if m not in ("emit", "next", "peek", "error")]
     return out
 
 
